@@ -200,7 +200,7 @@ class Schedules(Suite):
         return G.shrink_candidates(case)
 
 
-G_ALL = ["R", "R0", "E", "E0", "Q", "O", "T", "N", "G", "F", "B", "Oe"]
+G_ALL = ["R", "R0", "Rx", "E", "E0", "Q", "O", "T", "N", "G", "Gp", "F", "B", "Oe"]
 
 
 def suites():
